@@ -369,7 +369,10 @@ def plans(prop, tier):
               ("v6tok-wrap", B(InitOnline=True, SeqStart=1022, MaxVital=2, MaxFaults=1, MaxClock=1)),
               # the accepting side sends three vital chunks (a reset of its sequence numbers shows as a skipped chunk)
               ("v7-sback", B(V7=True, Senders={"c", "s"}, MaxVital=1, MaxVitalS=3, MaxFaults=1, MaxClock=0)),
-              ("v6tok-sback", B(Senders={"c", "s"}, MaxVital=1, MaxVitalS=3, MaxFaults=1, MaxClock=0))]
+              ("v6tok-sback", B(Senders={"c", "s"}, MaxVital=1, MaxVitalS=3, MaxFaults=1, MaxClock=0)),
+              # a side that has a resend request pending sends a compressible (even-sized) chunk itself
+              ("v7-rr-compress", B(V7=True, Senders={"c", "s"}, Sizes={40}, MaxVital=2, MaxVitalS=1, MaxNV=0, MaxFaults=1, MaxClock=0)),
+              ("v6tok-rr-compress", B(Senders={"c", "s"}, Sizes={40}, MaxVital=2, MaxVitalS=1, MaxNV=0, MaxFaults=1, MaxClock=0))]
         dr = [(m, "random", 1, 400) for m in ("v6tok", "v6plain", "v7")]
         if not q:
             mc += [("v6tok-L", B(Senders={"c", "s"}, MaxVital=1, MaxNV=0, MaxFaults=2, MaxClock=2, MaxInFlight=2)),
@@ -429,6 +432,9 @@ def plans(prop, tier):
         # two chunks that fill a packet exactly (3+692 + 3+692 = 1390) or overshoot by one byte
         ex += [("v6tok-fill", B(Sizes={692, 693}, MaxVital=2, MaxNV=0, MaxFaults=0, MaxClock=1)),
                ("v7-fill", B(V7=True, Sizes={692, 693}, MaxVital=2, MaxNV=0, MaxFaults=0, MaxClock=1))]
+        # the 10-bit sequence number wraps (1022 -> 1023 -> 0): headers must stay encodable
+        ex += [("v6tok-wrap", B(InitOnline=True, SeqStart=1022, MaxVital=2, MaxFaults=0, MaxClock=1)),
+               ("v7-wrap", B(V7=True, InitOnline=True, SeqStart=1022, MaxVital=2, MaxFaults=0, MaxClock=1))]
         dr = [(m, sc, 1, 0) for m in ("v6tok", "v7") for sc in ("smallchunks", "bigchunks", "fill")]
         if not q:
             ex += [("v6tok-limits-faults", B(Sizes={0, 1023}, MaxVital=2, MaxNV=1, MaxFaults=1, MaxClock=1)),
